@@ -263,7 +263,7 @@ pub fn build_file_patch(ch: &mut Chooser, d: &Dialect, chg: &FileChange, ops: &[
     let force_q = d.quote != Quote::None && ch.chance(1, 2);
     let old_name: Vec<u8> = if chg.old.is_none() {
         b"/dev/null".to_vec()
-    } else if d.orig_style && !chg.rename && chg.old_path == chg.new_path {
+    } else if d.orig_style && !chg.rename && chg.old_path == chg.new_path && chg.new.is_some() {
         render_name(d, &pa, &format!("{}.orig", chg.old_path), force_q)
     } else {
         render_name(d, &pa, &chg.old_path, force_q)
